@@ -185,6 +185,12 @@ def assign_alphabet(A, names):
         "r=c": {r: c},
         "c=a": {c: a},
         "@[sp+4]=0": {m.ExprMem(sp + m.ExprInt(4, 32), 32): m.ExprInt(0, 32)},
+        # one symbolic base (a): a constant at base+0, wider stores at negative displacements straddling the base, reload
+        "@[a]=5": {m.ExprMem(a, 32): m.ExprInt(5, 32)},
+        "@[a-3]=b": {m.ExprMem(a + m.ExprInt(0xFFFFFFFD, 32), 32): b},
+        "@[a-2]=b": {m.ExprMem(a + m.ExprInt(0xFFFFFFFE, 32), 32): b},
+        "c=@[a]": {c: m.ExprMem(a, 32)},
+        "r=c+1": {r: c + one},
         "zf=0": {zf: m.ExprInt(0, 1)},
         "zf=1": {zf: m.ExprInt(1, 1)},
         "a=5": {a: m.ExprInt(5, 32)},
